@@ -104,7 +104,7 @@ BASE = {"src/a.py": H + "a = 1\n", "src/b.c": "int b;\n", "LICENSES/MIT.txt": "m
 
 def bounds(tier, seed):
     return {"toml_keys": KEYS, "toml_shapes": list(SHAPES), "toml_pairs": tier == "thorough", "broken_toml": list(BROKEN_TOML), "broken_dep5": list(BROKEN_DEP5),
-            "broken_templates": 8, "gitmodules_shapes": list(GITMODULES), "gitignore_shapes": list(GITIGNORE), "byte_classes": list(byte_classes()), "commands": COMMANDS, "io_fault_errnos": ["EACCES", "ENOENT", "EISDIR", "EIO"],
+            "broken_templates": 8, "license_sibling_states": list(SIBLING_STATES), "gitmodules_shapes": list(GITMODULES), "gitignore_shapes": list(GITIGNORE), "byte_classes": list(byte_classes()), "commands": COMMANDS, "io_fault_errnos": ["EACCES", "ENOENT", "EISDIR", "EIO"],
             "io_faults": "every single k-th open" + (" and every pair" if tier == "thorough" else "")}
 
 
@@ -151,6 +151,9 @@ def cases(tier, seed):
         yield {"k": "vcsmeta", "file": ".gitmodules", "name": name}
     for name in GITIGNORE:
         yield {"k": "vcsmeta", "file": ".gitignore", "name": name}
+    for state in SIBLING_STATES:
+        for target in ("binary", "force-dot-license", "fallback-dot-license"):
+            yield {"k": "sibling", "state": state, "target": target}
     from ..annot import TEMPLATES
 
     for name in TEMPLATES:
@@ -299,6 +302,37 @@ def ev_vcsmeta(c) -> R:
     r.evals = len(COMMANDS)
     r.outcome = "vcsmeta"
     r.tags.append("vcsmeta")
+    return r
+
+
+SIBLING_STATES = {"directory": {"dir": True}, "dangling-symlink": {"symlink": "does-not-exist"}, "symlink-loop": None, "symlink-to-directory": {"symlink": "src"},
+                  "invalid-utf8": {"hex": "fffe5350"}, "read-only-empty": {"empty": True, "mode": 0o444}, "symlink-to-file": {"symlink": "src/a.py"}}
+
+
+def ev_sibling(c) -> R:
+    """FILE.license exists in an odd state when annotate wants to use it; lint / spdx read the same tree."""
+    r = R()
+    name = {"binary": "img.png", "force-dot-license": "src/b.c", "fallback-dot-license": "data.xyz"}[c["target"]]
+    for cmd in ("annotate", "lint", "lint-json", "spdx"):
+        root = fresh_dir("c16")
+        rec = dict(BASE)
+        rec["REUSE.toml"] = toml_with({})
+        rec["img.png"] = {"hex": "89504e470d0a1a0a0000000d49484452"}
+        rec["data.xyz"] = "data\n"
+        spec = SIBLING_STATES[c["state"]]
+        rec[name + ".license"] = spec if spec is not None else {"symlink": os.path.basename(name) + ".license"}
+        materialise(root, rec)
+        if cmd == "annotate":
+            argv = ["--root", str(root), "annotate", "--copyright", "Kim", "--license", "MIT", "--year", "2020"]
+            if c["target"] != "binary":
+                argv.append("--" + c["target"])
+            out = run_cli(argv + [str(root / name), str(root / "src/a.py")])
+        else:
+            out = run_command(cmd, root)
+        judge(r, out, cmd, f"{name}.license is a {c['state']} ({c['target']})", f"sibling|{c['state']}|{cmd}")
+    r.evals = 4
+    r.outcome = "sibling"
+    r.tags.append("sibling")
     return r
 
 
@@ -466,7 +500,7 @@ def ev_io(c) -> R:
     return r
 
 
-_EV = {"vcsmeta": ev_vcsmeta, "template": ev_template, "glob": ev_glob, "toml": ev_toml, "broken-toml": ev_broken_toml, "dep5": ev_dep5, "bytes": ev_bytes, "licenses": ev_licenses, "io": ev_io}
+_EV = {"sibling": ev_sibling, "vcsmeta": ev_vcsmeta, "template": ev_template, "glob": ev_glob, "toml": ev_toml, "broken-toml": ev_broken_toml, "dep5": ev_dep5, "bytes": ev_bytes, "licenses": ev_licenses, "io": ev_io}
 
 
 def evaluate(c) -> R:
@@ -488,7 +522,7 @@ def run(tier, seed):
     return finish(
         ID, "fault_enumeration", MODULE, tier, seed, st, t0,
         rule=("every REUSE.toml key x every TOML value shape (root and nested file; pairs of keys: one key row per seed in quick, all in thorough), "
-              "15 structurally broken TOML files, 18 broken or odd dep5 files + conflicts, 16 .gitmodules and 9 .gitignore shapes inside a Git repository, 8 unloadable / unrenderable templates x 3 targets, 11 hostile byte classes x {header, .license}, 5 LICENSES/ oddities, and an "
+              "15 structurally broken TOML files, 18 broken or odd dep5 files + conflicts, 16 .gitmodules and 9 .gitignore shapes inside a Git repository, 8 unloadable / unrenderable templates x 3 targets, 7 odd states of FILE.license x 3 ways annotate gets to it, 11 hostile byte classes x {header, .license}, 5 LICENSES/ oddities, and an "
               "I/O fault (4 errnos) injected at the k-th open of a project file for every k (and every pair in thorough), each under 8 subcommands (4 for "
               "I/O faults); oracle: exit status in {0,1,2}, no escaping exception, configuration errors exit 2 naming the file, other files still reported; "
               "non-trivial = the malformed value / fault was actually reached"),
